@@ -30,6 +30,7 @@ type E2EOpts struct {
 	HTTP      *SynthTransport // serve the repository over the in-process transport instead of the file system
 	LockFile  string
 	BuildDate string // RFC3339, as the CLI flag --build-date ("" = the CLI default)
+	ExtraKeys int    // further keyring entries (copies of the repository key under other names): the keyring is a list of several entries
 	Tags      []string
 	ExtraOpts []build.Option
 }
@@ -104,6 +105,17 @@ func e2eBuildAt(ic types.ImageConfiguration, repo *SRepo, repoDir string, o E2EO
 		kp := repo.WriteTo(rd)
 		ic.Contents.RuntimeRepositories = []string{rd}
 		ic.Contents.Keyring = []string{kp}
+	}
+	for k := 0; k < o.ExtraKeys; k++ {
+		name := fmt.Sprintf("extra-%d.rsa.pub", (k*5+3)%11)
+		switch {
+		case o.HTTP != nil:
+			ic.Contents.Keyring = append(ic.Contents.Keyring, "https://repo.test/keys/"+name)
+		default:
+			kp := filepath.Join(filepath.Dir(ic.Contents.Keyring[0]), name)
+			_ = os.WriteFile(kp, repo.KeyPEM, 0o644)
+			ic.Contents.Keyring = append(ic.Contents.Keyring, kp)
+		}
 	}
 	var archs []types.Architecture
 	for _, a := range o.Archs {
